@@ -195,6 +195,9 @@ enum SizeForm {
     Variable,
     Parameter,
     FunctionCall,
+    /// `c ? n : other` with a constant numeric condition (1 or 0 held by a variable): the size is n
+    TernaryTrue,
+    TernaryFalse,
 }
 
 fn size_line(i: usize, template: &str, n: u64, form: SizeForm, curve: &str) -> Line {
@@ -216,6 +219,12 @@ fn size_line_as(i: usize, template: &str, n: u64, form: SizeForm, curve: &str, i
         SizeForm::Variable => (format!("    var zv{i} = {n};\n{}", inst(inst_form, &v, &format!("{template}(zv{i})"))), true, Some(n)),
         SizeForm::Parameter => (inst(inst_form, &v, &format!("{template}(n)")), false, None),
         SizeForm::FunctionCall => (inst(inst_form, &v, &format!("{template}(zf({n}))")), false, Some(n + 250)),
+        SizeForm::TernaryTrue | SizeForm::TernaryFalse => {
+            // the branch not taken lies on the other side of the 254 boundary
+            let other = if n >= 254 { 8 } else { 300 };
+            let (c, a, b) = if matches!(form, SizeForm::TernaryTrue) { (1, n, other) } else { (0, other, n) };
+            (format!("    var zw{i} = {c};\n{}", inst(inst_form, &v, &format!("{template}(zw{i} ? {a} : {b})"))), true, Some(n))
+        }
     };
     let expect = if curve == "BN254" {
         match (constant, value) {
@@ -242,12 +251,24 @@ fn less_than_lines(i: usize, k: Option<u64>, constant: bool, curve: &str) -> Lin
 /// `shadowed`: a nested block declares a second component of the same name, a `Num2Bits` of a size on the
 /// other side of the curve's threshold, fed by another signal; it says nothing about the first one's input.
 fn less_than_lines_shadowed(i: usize, k: Option<u64>, constant: bool, curve: &str, shadowed: bool) -> Line {
+    less_than_lines_full(i, k, constant, curve, shadowed, false)
+}
+
+fn less_than_lines_full(i: usize, k: Option<u64>, constant: bool, curve: &str, shadowed: bool, second: bool) -> Line {
     let mut text = format!("    signal input q{i};\n");
     let mut ok = false;
     if let Some(k) = k {
         if constant {
             text.push_str(&format!("    component nb{i} = Num2Bits({k});\n    nb{i}.in <== q{i};\n"));
             ok = range_check_ok(k, curve);
+            if second {
+                // a second range check of the same signal, of a size on the other side of the threshold:
+                // the input counts as checked if either of them is tight enough
+                let other = if ok { 300 } else { 8 };
+                let (first, then) = if i % 2 == 0 { (k, other) } else { (other, k) };
+                text = format!("    signal input q{i};\n    component nb{i} = Num2Bits({first});\n    nb{i}.in <== q{i};\n    component nc{i} = Num2Bits({then});\n    nc{i}.in <== q{i};\n");
+                ok = true;
+            }
             if shadowed {
                 let other = if ok { 300 } else { 8 };
                 text.push_str(&format!(
@@ -479,7 +500,7 @@ fn random_case(ctx: &Ctx, tape: &[u8], rec: &Rec) -> Verdict {
                     2 => [0u64, 1, 253, 254, 255, 256, 300][t.below(7)],
                     _ => t.below(64) as u64,
                 };
-                let form = [SizeForm::Literal, SizeForm::Arithmetic, SizeForm::ShiftExpr, SizeForm::Variable, SizeForm::Parameter, SizeForm::FunctionCall][t.below(6)];
+                let form = [SizeForm::Literal, SizeForm::Arithmetic, SizeForm::ShiftExpr, SizeForm::Variable, SizeForm::Parameter, SizeForm::FunctionCall, SizeForm::TernaryTrue, SizeForm::TernaryFalse][t.below(8)];
                 size_line_as(i, if t.chance(128) { "Num2Bits" } else { "Bits2Num" }, size, form, curve, t.below(6))
             }
             _ => {
@@ -493,7 +514,11 @@ fn random_case(ctx: &Ctx, tape: &[u8], rec: &Rec) -> Verdict {
                 if shadowed && constant && k.is_some() {
                     rec.class("less_than_input_checked_by_a_component_whose_name_is_shadowed");
                 }
-                less_than_lines_shadowed(i, k, constant, curve, shadowed)
+                let second = !shadowed && t.chance(64);
+                if second && constant && k.is_some() {
+                    rec.class("less_than_input_checked_by_two_num2bits_of_different_sizes");
+                }
+                less_than_lines_full(i, k, constant, curve, shadowed, second)
             }
         };
         rec.nontrivial(fnv(format!("{curve}/{}", l.text).as_bytes()));
